@@ -6,33 +6,46 @@ from vlib import Suite, zlist, zlit, coqlist, blit
 ID = "C20"
 READY = True
 RULE = ("credits: one real machine (credits mode + real attract/game modes on the virtual clock) is booted per case from "
-        "a generated credits: section (coin values, 0-3 extra pricing tiers incl. skipped ones, max_credits 0/N, both "
-        "expiration times, credit events, free_play at boot, balls_per_game) and driven by a history of 10-60 "
-        "operations (coin switches, service switch, credit events, start button incl. bursts of 2-4 presses inside one run of the event queue, ball ends, game end, waits on a "
-        "125 ms grid, toggle/enable free/credit play, credits_reset, earnings_reset); after every operation the "
-        "machine variables, game state, tier counter, earnings and posted events are observed.  Histories are biased "
-        "to run into the maximum with a multi-unit coin and to cross tier wrap-arounds and game starts.  "
-        "non-trivial = the history contains an accepted coin and at least one of: cap reached, tier bonus granted, "
-        "start denied/accepted, expiry fired; distinct by case hash.  units: coin-value/price/tier combinations that "
-        "are NOT restricted to the exact domain (unit not a divisor of the price, lower/equal later tiers, negative "
-        "bonuses); the derived unit, units per game, wrap-around and pricing table are compared with the model and the "
-        "oracle checks that a game costs the configured price; non-trivial = more than one coin value or tier")
+        "a generated credits: section (coin values and prices in eighths OR in cents — 30% decimal currencies whose doubles "
+        "are inexact —, 0-3 extra pricing tiers incl. skipped ones, max_credits 0/N, both expiration times, credit events, "
+        "free_play at boot, balls_per_game, persist_credits_while_off_time 0/30/120/3600 s) and driven by a history of 10-60 "
+        "operations (coin switches, service switch, credit events, start button incl. bursts of 2-4 presses inside one run "
+        "of the event queue, 1-3 start presses while a test handler holds the player_adding queue for 0.125-61 s, ball ends, game end, waits on a 125 ms grid, toggle/enable free/credit play, credits_reset, "
+        "earnings_reset, power cycles); after every operation the machine variables, game state, tier counter, earnings, "
+        "posted events, the stored free_play variable and the persist flag / timeout of credit_units are observed.  "
+        "Histories are biased to run into the maximum with a multi-unit coin, to cross tier wrap-arounds and game starts, "
+        "and (30% of the multi-ball configurations) to play two games with money inserted before and after ball 2 of "
+        "player 1 of the second game.  non-trivial = an accepted coin and at least one of: cap reached, tier bonus "
+        "granted, start denied/accepted, expiry fired; distinct by case hash.  reboot: short histories around 1-2 power "
+        "cycles (the machine is stopped, a new one is booted from the data the TestDataManagers wrote, its clock set to "
+        "power-off time + off time, off times on both sides of the persistence time); non-trivial = a power cycle with a "
+        "non-zero balance or a changed free_play setting.  units: coin-value/price/tier combinations in eighths and in "
+        "cents that are NOT restricted to the exact domain (unit not a divisor of the price, lower/equal later tiers, "
+        "negative bonuses); the derived unit (exact double), units per game, wrap-around and pricing table are compared "
+        "with the float-faithful model and the oracle checks that a game costs the configured price; non-trivial = more "
+        "than one coin value or tier")
 TRUSTED_BASE = [
-    "Coq 8.16.1 kernel (coqc), vm_compute for the refutation witness and for evaluating the model in the correspondence run; no native_compute",
+    "Coq 8.16.1 kernel (coqc), vm_compute for the refutation witnesses, the bounded-exhaustive float theorem and for evaluating the model in the correspondence run; no native_compute",
     "axioms: none (every Print Assumptions is 'Closed under the global context')",
-    "hand-written integer model coq/C20/Model.v of credits.py (+ the start/add-player/rotation skeleton of game.py), "
-    "tied to the working tree by correspondence: harness/props/c20.py runs the real credits mode inside a real "
-    "MachineController (mpf.tests TestMachineController on the virtual clock) and the model on the same histories",
-    "money values are multiples of 1/8 so that the implementation's float arithmetic is exact; `while x >= t` loops "
-    "of _calculate_pricing_tiers are modelled by integer division",
-    "the direct oracle (Python) evaluates bounds, start gate, display, earnings and the money-level pricing formula on the implementation's observations",
+    "hand-written model coq/C20/Model.v of credits.py (+ the start/add-player/rotation skeleton of game.py, the credit_units "
+    "part of machine_vars.py, the read path of settings_controller.py), tied to the working tree by correspondence: "
+    "harness/props/c20.py runs the real credits mode inside a real MachineController (mpf.tests TestMachineController on "
+    "the virtual clock, TestDataManager as disk) and the model on the same histories",
+    "coq/C20/Float.v: binary64 as exact rationals (round-to-nearest-even to 53 bits; same construction as coq/C12), used for "
+    "value/price/unit arithmetic; Python's float() of a decimal literal and json/yaml round trip are taken to be correctly rounded",
+    "`while x >= t` loops of _calculate_pricing_tiers are modelled by integer division",
+    "the direct oracle (Python) evaluates bounds, start gate, display, earnings, game price, the money-level pricing formula "
+    "with its own tier-epoch rule, and the power-cycle clauses on the implementation's observations",
 ]
 ASSUMPTIONS = [
-    "fixes/C20-cap-overshoot.patch, C20-freeplay-boot-units.patch, C20-duplicate-credit-handlers.patch are applied (committed in /repo as 8c88f5c, ebe35ba, 5503f26; the model is of the fixed code)",
-    "configuration domain: every coin value and tier price is a whole number of the computed credit unit, event credits "
-    "a whole number of units, first tier gives 1 credit, yields are monotone (otherwise the code raises or rounds; see NOTES.md)",
-    "configuration is constant during a run (max_credits and prices are templates in MPF); no reboot/persistence of credit_units",
-    "no extra balls, no slam tilt; operations are at least 125 ms apart and never coincide with an expiry deadline",
+    "fixes/C20-cap-overshoot.patch, C20-freeplay-boot-units.patch, C20-duplicate-credit-handlers.patch (commits 8c88f5c, ebe35ba, "
+    "5503f26 in /repo) AND fixes/C20-decimal-prices-float-truncation.patch (new, to be applied) — the model is of the fixed code",
+    "configuration domain of the history suites: every coin value and tier price is (ideally) a whole number of the computed "
+    "credit unit, event credits a whole number of units, first tier gives 1 credit, yields are monotone (otherwise the code raises or rounds; see NOTES.md)",
+    "configuration is constant during a run (max_credits and prices are templates in MPF)",
+    "no extra balls, no slam tilt; operations are at least 125 ms apart and never coincide with an expiry deadline or a power-on",
+    "held player_adding queues only in the shape StartHeld n w: n presses in one event-queue run, all queues released together after w ms, nothing else during the hold",
+    "earnings money sums of cent configurations are compared after rounding to the nearest cent (float accumulation error < 1e-6)",
 ]
 
 TICK = 0.125
@@ -42,8 +55,8 @@ MAX_PLAYERS = 4
 
 # ------------------------------------------------------------------------------------------------
 # generator-side arithmetic (only used to stay inside the model's stated domain)
-def py_cu(coins, tiers):
-    price = tiers[0][0] if tiers else 8
+def py_cu(coins, tiers, scale=8):
+    price = tiers[0][0] if tiers else scale
     m = min(coins) if coins else price
     if m == price:
         return m
@@ -52,7 +65,7 @@ def py_cu(coins, tiers):
     return min(m - price, price)
 
 
-def eff_tiers(tiers):
+def eff_tiers(tiers, scale=8):
     """tiers the code keeps (price >= last kept price), in money terms"""
     kept = []
     for p, cr in tiers:
@@ -62,9 +75,9 @@ def eff_tiers(tiers):
     return kept
 
 
-def money_yield(tiers, m):
-    """credits (Fraction) that m ticks buy: greedy from the most expensive tier, rest at the base price"""
-    kept = eff_tiers(tiers) or [(8, 1)]
+def money_yield(tiers, m, scale=8):
+    """credits (Fraction) that m minor units buy: greedy from the most expensive tier, rest at the base price"""
+    kept = eff_tiers(tiers) or [(scale, 1)]
     r = m
     cr = Fraction(0)
     for p, c in reversed(kept):
@@ -76,10 +89,11 @@ def money_yield(tiers, m):
 
 def cfg_in_domain(cfg):
     coins, tiers = cfg["coins"], cfg["tiers"]
-    cu = py_cu(coins, tiers)
+    S = cfg.get("scale", 8)
+    cu = py_cu(coins, tiers, S)
     if cu <= 0:
         return False
-    price = tiers[0][0] if tiers else 8
+    price = tiers[0][0] if tiers else S
     if price % cu or any(v % cu for v in coins) or any(p % cu or p <= 0 for p, _ in tiers):
         return False
     if tiers and tiers[0][1] != 1:
@@ -88,21 +102,30 @@ def cfg_in_domain(cfg):
     if any((q * upg) % 4 for q in cfg["evq"]):
         return False
     kept = eff_tiers(tiers)
-    top = kept[-1][0] if kept else 8
-    ys = [money_yield(tiers, u * cu) for u in range(top // cu + 2)]
+    top = kept[-1][0] if kept else S
+    ys = [money_yield(tiers, u * cu, S) for u in range(top // cu + 2)]
     return all(a <= b for a, b in zip(ys, ys[1:]))
 
 
 COINSETS = [[2], [2, 8], [2, 2, 8], [4, 8], [8], [8, 16], [2, 4, 8], [4], [16], [], [4, 16], [2, 16], [6, 12]]
 PRICES = [2, 4, 4, 6, 8, 8, 12, 16, 24]
+# decimal currencies (cents): values that are not exact in binary
+COINSETS_C = [[10], [10, 20, 50], [10, 50, 100], [5], [5, 10, 25], [20, 50], [20], [10, 20, 50, 100, 200], [5, 20],
+              [50, 100], [10, 30], [], [1, 5]]
+PRICES_C = [30, 60, 70, 50, 100, 15, 35, 40, 90, 110, 120, 150, 3, 7]
+PERSIST = [0, 30, 30, 120, 3600, 3600]
+REBOOT_OFF = [1030, 10030, 29030, 31030, 60030, 119030, 121030, 3599030, 3601030, 7200030]
 
 
-def gen_cfg(rng):
-    for _ in range(200):
-        coins = list(rng.choice(COINSETS))
+def gen_cfg(rng, decimal=None):
+    if decimal is None:
+        decimal = rng.random() < 0.3
+    S = 100 if decimal else 8
+    for _ in range(400):
+        coins = list(rng.choice(COINSETS_C if decimal else COINSETS))
         tiers = []
         if rng.random() < 0.9:
-            p1 = rng.choice(PRICES)
+            p1 = rng.choice(PRICES_C if decimal else PRICES)
             tiers.append([p1, 1])
             p = p1
             for _ in range(rng.choice([0, 1, 1, 2, 3])):
@@ -110,26 +133,27 @@ def gen_cfg(rng):
                     p2 = max(1, p - rng.choice([1, 2, 4]))      # lower than the previous one: the code skips it
                     tiers.append([p2, rng.randint(1, 6)])
                     continue
-                cu0 = max(1, py_cu(coins, tiers))
+                cu0 = max(1, py_cu(coins, tiers, S))
                 p = p + cu0 * rng.choice([1, 2, 2, 3, 4, 6, 8, 12])
                 base = -(-p // p1)
                 tiers.append([p, base + rng.choice([0, 1, 1, 2, 3, 5])])
-        cu = py_cu(coins, tiers)
-        price = tiers[0][0] if tiers else 8
+        cu = py_cu(coins, tiers, S)
+        price = tiers[0][0] if tiers else S
         upg = price // cu if cu > 0 else 0
         evq = rng.choice([[4], [4, 8], [4, 12], [2, 4], [1, 4], []])
         evq = [q for q in evq if upg and (q * upg) % 4 == 0]
         cfg = {"coins": coins, "labels": [rng.choice([None, "K%d" % i]) for i in range(len(coins))], "tiers": tiers,
                "max": rng.choice([0, 0, 1, 2, 3, 3, 5, 8, 12]),
                "frac_ms": rng.choice([0, 0, 5060, 10060, 20060]), "all_ms": rng.choice([0, 0, 15060, 30060, 60060]),
-               "evq": evq, "boot_fp": rng.random() < 0.15, "bpg": rng.choice([1, 2, 3])}
+               "evq": evq, "boot_fp": rng.random() < 0.15, "bpg": rng.choice([1, 2, 3]),
+               "persist_s": rng.choice(PERSIST), "scale": S}
         if cfg_in_domain(cfg):
             return cfg
     return {"coins": [2, 8], "labels": [None, "R"], "tiers": [[4, 1], [16, 5]], "max": 12, "frac_ms": 10060,
-            "all_ms": 30060, "evq": [4], "boot_fp": False, "bpg": 2}
+            "all_ms": 30060, "evq": [4], "boot_fp": False, "bpg": 2, "persist_s": 30, "scale": 8}
 
 
-def gen_ops(rng, cfg, n):
+def gen_ops(rng, cfg, n, reboot_p=0.004):
     ops = []
     nco, nev = len(cfg["coins"]), len(cfg["evq"])
     big = max(range(nco), key=lambda k: cfg["coins"][k]) if nco else None
@@ -146,9 +170,24 @@ def gen_ops(rng, cfg, n):
         # a game on ball 1 with exactly k game prices left, then k+1.. presses at once
         k = rng.choice([1, 1, 2])
         ops += [["svc"]] * (k + 1) + [["start"], ["starts", k + rng.choice([1, 1, 2])]]
+    if not cfg["boot_fp"] and cfg["bpg"] >= 2 and nco and rng.random() < 0.3:
+        # two games; in the second one money is inserted on ball 1 and again after ball 2 of player 1 has started
+        # (tier counting restarts there, once per game, in every game)
+        ops += [["svc"]] * rng.choice([2, 3]) + [["start"]] + [["endball"]] * rng.choice([1, 1, 2])
+        ops += [rng.choice([["endgame"], ["endgame"], ["endball"]])] if cfg["bpg"] == 2 else [["endgame"]]
+        if rng.random() < 0.3:
+            ops.append(["endgame"])
+        ops += [["start"]] + [["coin", big]] * rng.choice([1, 1, 2, 3]) + [["endball"]] + [["coin", big]] * rng.choice([1, 2, 3])
     while len(ops) < n:
         r = rng.random()
-        if r < 0.40 and nco:
+        if r < reboot_p:
+            ops.append(["reboot", rng.choice(REBOOT_OFF)])
+        elif r < reboot_p + 0.03:
+            # start presses while a handler holds the player_adding queue, sometimes longer than an expiry time
+            if nco and rng.random() < 0.5:
+                ops.append(["coin", rng.randrange(nco)])
+            ops.append(["held", rng.choice([1, 1, 2, 3]), rng.choice([125, 1000, 5000, 12000, 21000, 35000, 61000])])
+        elif r < 0.40 and nco:
             k = big if rng.random() < 0.4 else rng.randrange(nco)
             ops += [["coin", k]] * rng.choice([1, 1, 1, 2, 3, 5])
         elif r < 0.48:
@@ -176,7 +215,7 @@ def gen_ops(rng, cfg, n):
             ops.append(["rc"])
         else:
             ops.append(["re"])
-    return ops[:n + 8]
+    return ops[:n + 14]
 
 
 def gen(rng, tier, i):
@@ -184,8 +223,33 @@ def gen(rng, tier, i):
     return {"cfg": cfg, "ops": gen_ops(rng, cfg, rng.choice([10, 20, 30, 45, 60]))}
 
 
+def gen_reboot(rng, tier, i):
+    """short histories around power cycles: balance, free_play setting and earnings against the data files"""
+    cfg = gen_cfg(rng)
+    if rng.random() < 0.8:
+        cfg["persist_s"] = rng.choice([30, 30, 120, 3600])
+    ops = gen_ops(rng, cfg, rng.choice([4, 8, 12]), reboot_p=0.0)[:14]
+    for _ in range(rng.choice([1, 1, 2])):
+        if rng.random() < 0.5:
+            ops.append(["wait", rng.choice([125, 1000, 10000, 25000, 35000, 100000, 125000])])
+        ops.append(["reboot", rng.choice(REBOOT_OFF)])
+        ops += gen_ops(rng, cfg, rng.choice([2, 4, 8]), reboot_p=0.0)[:10] if rng.random() < 0.8 else []
+        if cfg["boot_fp"] and rng.random() < 0.5:
+            ops.append(rng.choice([["toggle"], ["credit"]]))
+    return {"cfg": cfg, "ops": ops}
+
+
 # ------------------------------------------------------------------------------------------------
 # implementation side
+def scale_of(cfg):
+    return cfg.get("scale", 8)
+
+
+def money(cfg, v):
+    """the float the configuration file contains for v minor units (ticks of 1/8: exact; cents: nearest double)"""
+    return v / float(scale_of(cfg))
+
+
 def machine_config(cfg):
     nco = len(cfg["coins"])
     switches = {"s_c%d" % k: {"number": None} for k in range(nco)}
@@ -193,10 +257,11 @@ def machine_config(cfg):
     switches["s_start"] = {"number": None, "tags": "start"}
     credits = {
         "max_credits": cfg["max"], "free_play": bool(cfg["boot_fp"]), "service_credits_switch": "s_esc",
-        "switches": [dict({"switch": "s_c%d" % k, "value": cfg["coins"][k] * TICK, "type": "money"},
+        "persist_credits_while_off_time": "%ds" % cfg.get("persist_s", 0),
+        "switches": [dict({"switch": "s_c%d" % k, "value": money(cfg, cfg["coins"][k]), "type": "money"},
                           **({"label": cfg["labels"][k]} if cfg["labels"][k] else {})) for k in range(nco)],
         "events": [{"event": "verif_credit_%d" % j, "credits": q / 4.0, "type": "award"} for j, q in enumerate(cfg["evq"])],
-        "pricing_tiers": [{"price": p * TICK, "credits": cr} for p, cr in cfg["tiers"]],
+        "pricing_tiers": [{"price": money(cfg, p), "credits": cr} for p, cr in cfg["tiers"]],
         "fractional_credit_expiration_time": "%dms" % cfg["frac_ms"],
         "credit_expiration_time": "%dms" % cfg["all_ms"],
     }
@@ -207,35 +272,65 @@ def machine_config(cfg):
 MODES = {"credits": {"mode": {"priority": 11000, "start_events": "machine_reset_phase_3", "stop_on_ball_end": False}}}
 
 
+def first_price(cfg):
+    return cfg["tiers"][0][0] if cfg["tiers"] else scale_of(cfg)
+
+
 def run_impl(case):
+    import copy
+    from fractions import Fraction as Fr
     from rig import Rig
     from unittest.mock import MagicMock
     cfg = case["cfg"]
-    r = Rig(machine_config(cfg), modes=MODES)
-    r.start()
-    try:
+    S = scale_of(cfg)
+    mcfg = machine_config(cfg)
+    cnt = {"ne": 0, "mx": 0, "ad": 0}
+    box = {}
+
+    def h_ne(**kwargs):
+        cnt["ne"] += 1
+
+    def h_mx(**kwargs):
+        cnt["mx"] += 1
+
+    def h_ad(**kwargs):
+        cnt["ad"] += 1
+
+    def boot(data, t):
+        r = Rig(mcfg, modes=MODES, mock_data=data, mock_loop=(lambda rg: rg.loop.set_time(t)))
+        r.start()
+        box["r"] = r
         m = r.machine
-        cm = m.modes["credits"]
-        cnt = {"ne": 0, "mx": 0, "ad": 0}
-
-        def h_ne(**kwargs):
-            cnt["ne"] += 1
-
-        def h_mx(**kwargs):
-            cnt["mx"] += 1
-
-        def h_ad(**kwargs):
-            cnt["ad"] += 1
         m.events.add_handler("not_enough_credits", h_ne)
         m.events.add_handler("max_credits_reached", h_mx)
         m.events.add_handler("credits_added", h_ad)
         m.playfield.add_ball = MagicMock()
         m.ball_controller.num_balls_known = 3
+        cnt["ne"] = cnt["mx"] = cnt["ad"] = 0
+        return r
 
+    def disk(r):
+        out = {}
+        for name, dm in (("machine_vars", r.machine.variables.machine_var_data_manager),
+                         ("earnings", r.machine.modes["credits"].data_manager)):
+            out[name] = copy.deepcopy(dm.written_data if dm.written_data is not None else dm.data)
+        return out
+
+    def to_minor(x):
+        """money audit (float sum) in minor units; exact for ticks, nearest integer for cents when within 1e-6"""
+        y = float(x) * S
+        return round(y) if abs(y - round(y)) < 1e-6 else y
+
+    r = boot({}, 0.0)
+    try:
         def snap():
+            m = box["r"].machine
+            cm = m.modes["credits"]
             v = m.variables
             g = m.game
             e = cm.earnings
+            cuv = v.machine_vars.get("credit_units")
+            tmo = cuv.get("timeout") if cuv else None
             out = {
                 "units": v.get_machine_var("credit_units") or 0,
                 "string": v.get_machine_var("credits_string"),
@@ -243,27 +338,37 @@ def run_impl(case):
                 "wnd": [v.get_machine_var("credits_whole_num") or 0, v.get_machine_var("credits_numerator") or 0,
                         v.get_machine_var("credits_denominator") or 0],
                 "fp": bool(m.settings.get_setting_value("free_play")),
+                "fpvar": v.get_machine_var("free_play"),
                 "ingame": g is not None,
                 "npl": g.num_players if g is not None else 0,
                 "cpl": g.player.number if g is not None and g.player else 0,
                 "ball": g.player.ball if g is not None and g.player else 0,
                 "tc": cm.credit_units_for_pricing_tiers,
                 "earn": {k: (x if isinstance(x, (int, str)) else repr(x)) for k, x in e.items()},
-                "earn_ticks": [float(e.get("2 Total Earnings money", 0)) * 8] +
-                              [float(e.get("%s Earnings money" % lb, 0)) * 8 for lb in cfg["labels"] if lb],
+                "earn_ticks": [to_minor(e.get("2 Total Earnings money", 0))] +
+                              [to_minor(e.get("%s Earnings money" % lb, 0)) for lb in cfg["labels"] if lb],
                 "ev": [cnt["ne"], cnt["mx"], cnt["ad"]],
+                # persistence of the balance: persist flag and timeout (ms of model time: virtual clock - 1 ms boot)
+                "pers": int(bool(cuv and cuv.get("persist"))),
+                "pexp": int(round((tmo - 100000.0 - 0.001) * 1000)) if tmo else -1,
+                "t": int(round((box["r"].now() - 0.001) * 1000)),
             }
             cnt["ne"] = cnt["mx"] = cnt["ad"] = 0
             return out
 
         def derived():
+            cm = box["r"].machine.modes["credits"]
             W = cm.pricing_tiers_wrap_around
-            return {"cu8": cm.credit_unit * 8, "upg": cm.credit_units_per_game, "W": W,
-                    "table": [cm.pricing_table.get(u, 0) for u in range(int(W) + 1)]}
+            cu = Fr(cm.credit_unit) if cm.credit_unit else Fr(0)
+            return {"cu": [cu.numerator, cu.denominator], "cuf": float(cm.credit_unit), "upg": cm.credit_units_per_game,
+                    "W": W, "table": [cm.pricing_table.get(u, 0) for u in range(int(W) + 1)]}
 
         out = {"derived": derived(), "boot": snap(), "rows": []}
         for o in case["ops"]:
             try:
+                r = box["r"]
+                m = r.machine
+                cm = m.modes["credits"]
                 k = o[0]
                 pend = {nm: cm.delay.delays[nm][0].when() for nm in ("clear_fractional_credits", "clear_all_credits")
                         if nm in cm.delay.delays}
@@ -279,6 +384,22 @@ def run_impl(case):
                     for _ in range(o[1]):
                         m.switch_controller.process_switch("s_start", state=1, logical=True)
                         m.switch_controller.process_switch("s_start", state=0, logical=True)
+                elif k == "held":
+                    # a handler holds every player_adding queue; o[1] presses inside one event-queue run; the queues
+                    # are released, in order, o[2] ms later
+                    held = []
+
+                    def hold(queue, **kwargs):
+                        queue.wait()
+                        held.append(queue)
+                    m.events.add_handler("player_adding", hold)
+                    for _ in range(o[1]):
+                        m.switch_controller.process_switch("s_start", state=1, logical=True)
+                        m.switch_controller.process_switch("s_start", state=0, logical=True)
+                    r.advance(o[2] / 1000.0)
+                    m.events.remove_handler(hold)
+                    for q in held:
+                        q.clear()
                 elif k == "endball":
                     if m.game is not None:
                         m.game.balls_in_play = 0
@@ -295,6 +416,15 @@ def run_impl(case):
                     m.events.post("credits_reset")
                 elif k == "re":
                     m.events.post("earnings_reset")
+                elif k == "reboot":
+                    # power off: what the data managers wrote so far is all that survives; power on o[1] ms later
+                    data = disk(r)
+                    t_off = r.now()
+                    r._exception = None
+                    r.stop()
+                    box.pop("r")
+                    pend = {}
+                    r = boot(data, t_off + o[1] / 1000.0)
                 r.advance(o[1] / 1000.0 if k == "wait" else OP_MS / 1000.0)
                 exc = r.exception()
                 if exc:
@@ -306,11 +436,13 @@ def run_impl(case):
             row["expdue"] = [int(nm in pend and pend[nm] <= r.now()) for nm in
                              ("clear_fractional_credits", "clear_all_credits")]
             out["rows"].append(row)
-        out["derived_end"] = derived()
+        if "r" in box:
+            out["derived_end"] = derived()
         return out
     finally:
-        r._exception = None
-        r.stop()
+        if "r" in box:
+            box["r"]._exception = None
+            box["r"].stop()
 
 
 def to_int(x):
@@ -336,6 +468,7 @@ def row_z(cfg, row, prev):
     vals += [0, 0, 0] if row["fp"] else row["wnd"]
     vals += [1 if row["ingame"] else 0, row["npl"], row["cpl"], row["ball"], row["tc"], coins, row["earn_ticks"][0],
              e.get("3 Total Paid Games", 0), e.get("service_credit Awards", 0), e.get("award Awards", 0)]
+    vals += [row["pers"], row["pexp"]]
     vals += row["ev"] + [accepted]
     res = []
     for x in vals:
@@ -345,9 +478,10 @@ def row_z(cfg, row, prev):
 
 
 def coq_cfg(cfg):
-    return "(mkCfg %s %s %s %s %s %s %s %s)" % (
+    return "(mkCfg %s %s %s %s %s %s %s %s %s %s)" % (
         zlist(cfg["coins"]), coqlist("(%s,%s)" % (zlit(p), zlit(c)) for p, c in cfg["tiers"]), zlit(cfg["max"]),
-        zlit(cfg["frac_ms"]), zlit(cfg["all_ms"]), zlist(cfg["evq"]), blit(cfg["boot_fp"]), zlit(cfg["bpg"]))
+        zlit(cfg["frac_ms"]), zlit(cfg["all_ms"]), zlist(cfg["evq"]), blit(cfg["boot_fp"]), zlit(cfg["bpg"]),
+        zlit(cfg.get("persist_s", 0) * 1000), zlit(scale_of(cfg)))
 
 
 def coq_op(o):
@@ -355,17 +489,20 @@ def coq_op(o):
     return {"coin": lambda: "Coin %d" % o[1], "svc": lambda: "Service", "ev": lambda: "CreditEv %d" % o[1],
             "start": lambda: "Start", "starts": lambda: "StartBurst %d" % o[1], "endball": lambda: "EndBall", "endgame": lambda: "EndGame",
             "wait": lambda: "Wait %d" % o[1], "toggle": lambda: "ToggleFree", "free": lambda: "EnableFree",
-            "credit": lambda: "EnableCredit", "rc": lambda: "ResetCredits", "re": lambda: "ResetEarnings"}[k]()
+            "credit": lambda: "EnableCredit", "rc": lambda: "ResetCredits", "re": lambda: "ResetEarnings",
+            "reboot": lambda: "Reboot %d" % o[1], "held": lambda: "StartHeld %d %d" % (o[1], o[2])}[k]()
+
+
+def first_row(d):
+    first = [d["cu"][0], d["cu"][1], to_int(d["upg"]), to_int(d["W"])] + [to_int(x) for x in d["table"]]
+    return [x if x is not None else -999999 for x in first]
 
 
 def coq_case(case, out):
     cfg = case["cfg"]
     if not cfg_in_domain(cfg):
         return None
-    d = out["derived"]
-    first = [to_int(d["cu8"]), to_int(d["upg"]), to_int(d["W"])] + [to_int(x) for x in d["table"]]
-    first = [x if x is not None else -999999 for x in first]
-    rows = [first]
+    rows = [first_row(out["derived"])]
     prev = out["boot"]
     for row in out["rows"]:
         rows.append(row_z(cfg, row, prev))
@@ -403,13 +540,25 @@ def oracle(case, out):
         c = out["crash"]
         fail("crash:" + c["type"], "the credits mode raised %s (%s) at operation %d %r" %
              (c["type"], c["msg"], c["at"], case["ops"][c["at"]]))
-    price = cfg["tiers"][0][0] if cfg["tiers"] else 8
-    upg = to_int(out["derived_end"]["upg"]) if "derived_end" in out else to_int(out["derived"]["upg"])
+    S = scale_of(cfg)
+    price = first_price(cfg)
+    dd = out["derived_end"] if "derived_end" in out else out["derived"]
+    upg = to_int(dd["upg"])
     if not upg or upg <= 0:
         if not fails:
             fail("no-credit-units", "credit_units_per_game is %r after the run" % (upg,))
         return fails
+    # a game costs the configured price (the configuration is inside the domain where the unit divides it)
+    if cfg_in_domain(cfg) and abs(upg * dd["cuf"] * S - price) > 1e-6:
+        fail("game-price", "a game costs %d units of %r = %r, the configured price is %r" %
+             (upg, dd["cuf"], upg * dd["cuf"], price / float(S)))
     prev = out["boot"]
+    oflag = False        # tier counting already restarted in this game (None = not known to the oracle)
+    last_change = None   # model time (ms) of the last observed change of the balance in this boot
+    # the oracle's own bookkeeping of the two expiry deadlines (ms): armed by an accepted coin, a credit event and a
+    # game end in credit play; removed by a game start in credit play and by a power cycle
+    dls = {"frac": None, "all": None}
+    dl_ms = {"frac": cfg["frac_ms"], "all": cfg["all_ms"]}
     exp_coins, exp_ticks = 0, 0
     exp_key = {lb: [0, 0] for lb in cfg["labels"] if lb}
     money = 0            # ticks inserted in the current pricing-tier epoch; None = epoch start not known to the oracle
@@ -438,12 +587,12 @@ def oracle(case, out):
         # an expiry deadline fell inside this operation: the exact-delta checks below are skipped for it
         can_expire = any(row["expdue"])
         # start gate ------------------------------------------------------------------------------
-        if k in ("start", "starts"):
+        if k in ("start", "starts", "held"):
             began = row["ingame"] and not prev["ingame"]
             added = row["npl"] - (prev["npl"] if prev["ingame"] else 0) if row["ingame"] else 0
             if not prev["fp"] and not row["fp"]:
                 blocked_by_game = prev["ingame"] and (prev["npl"] >= MAX_PLAYERS or prev["ball"] > 1)
-                burst_defect = (k == "starts" and o[1] >= 2 and prev["ingame"] and not blocked_by_game and
+                burst_defect = (k in ("starts", "held") and o[1] >= 2 and prev["ingame"] and not blocked_by_game and
                                 upg <= pu < upg * o[1] and added == o[1] and u == 0 and
                                 e_paid(row) - e_paid(prev) == o[1])
                 if burst_defect:
@@ -468,6 +617,47 @@ def oracle(case, out):
                         fail("start-deduction", "refused start changed the balance %d -> %d %s" % (pu, u, where))
             if began and not prev["fp"]:
                 money = 0
+        # tier progress restarts when ball 2 of player 1 starts, once per game, in every game played in credit play
+        if k == "endball" and row["ingame"] and row["cpl"] == 1 and row["ball"] == 2 and not row["fp"]:
+            if oflag is None:
+                money = None
+            elif not oflag:
+                money = 0
+            oflag = True
+        if prev["ingame"] and not row["ingame"] and k != "reboot":
+            # the game ended; in free play the credits mode does not watch games (a restart that already
+            # happened in that game is then not known to be forgotten: the oracle assumes nothing)
+            oflag = (None if oflag else False) if prev["fp"] else False
+        # power cycle -------------------------------------------------------------------------------
+        if k == "reboot":
+            P = cfg.get("persist_s", 0) * 1000
+            t_on = prev["t"] + o[1]
+            keep = bool(prev["pers"]) and (prev["pexp"] < 0 or prev["pexp"] >= t_on)
+            if P > 0 and pu and not prev["pers"]:
+                fail("reboot-balance", "persist_credits_while_off_time is %d s but the balance %d is not persisted %s" %
+                     (P // 1000, pu, where))
+            if P > 0 and last_change is not None and prev["pexp"] >= 0 and prev["pexp"] < last_change + P:
+                fail("reboot-balance", "balance last changed at %d ms, persisted for %d ms, but expires at %d ms %s" %
+                     (last_change, P, prev["pexp"], where))
+            wantu = pu if keep else 0
+            if u != wantu:
+                fail("reboot-balance", "power cycle of %d ms: balance %d -> %d units, expected %d (persist %d s, "
+                     "written data expire at %r, power on at %d ms) %s" % (o[1], pu, u, wantu, P // 1000, prev["pexp"], t_on, where))
+            if row["fp"] != prev["fp"]:
+                fail("reboot-setting", "free_play setting was %r before the power cycle and reads %r after it %s" %
+                     (prev["fp"], row["fp"], where))
+            if row["earn"] != prev["earn"]:
+                fail("reboot-earnings", "earnings changed over a power cycle: %r -> %r %s" % (prev["earn"], row["earn"], where))
+            if row["ingame"] or row["tc"] != 0:
+                fail("reboot-state", "game / tier progress survived a power cycle %s" % where)
+            money = 0
+            oflag = False
+            last_change = None
+        # stored setting = setting read back
+        if row["fpvar"] is not None and bool(row["fpvar"]) != row["fp"]:
+            fail("setting-readback", "machine var free_play = %r but the setting reads %r %s" % (row["fpvar"], row["fp"], where))
+        if u != pu and k != "reboot":
+            last_change = prev["t"]
         # earnings --------------------------------------------------------------------------------
         if k == "re":
             exp_coins, exp_ticks = 0, 0
@@ -497,7 +687,7 @@ def oracle(case, out):
                 delta = Fraction(cfg["evq"][o[1]], 4)
             elif k == "coin" and money is not None:
                 v = cfg["coins"][o[1]]
-                delta = money_yield(cfg["tiers"], money + v) - money_yield(cfg["tiers"], money)
+                delta = money_yield(cfg["tiers"], money + v, S) - money_yield(cfg["tiers"], money, S)
                 money += v
         elif k in ("coin", "svc", "ev"):
             delta = Fraction(0)
@@ -509,6 +699,25 @@ def oracle(case, out):
             if Fraction(u, upg) != want and not can_expire:
                 fail("balance-formula", "%r: balance went %s -> %s credits, the pricing table yields %s %s" %
                      (o, fmt_credits(pu, upg), fmt_credits(u, upg), want, where))
+        # the oracle's own deadlines: effects of the operation at its start, then what falls due until its end
+        began_now = row["ingame"] and not prev["ingame"] and k != "reboot"
+        ended_now = prev["ingame"] and not row["ingame"] and k != "reboot"
+        if k == "reboot":
+            dls = {"frac": None, "all": None}
+        elif not prev["fp"]:
+            if k in ("coin", "ev") or ended_now:
+                for nm in dls:
+                    if dl_ms[nm]:
+                        dls[nm] = prev["t"] + dl_ms[nm]
+            if began_now:
+                dls = {"frac": None, "all": None}
+        own_due = [dls[nm] is not None and dls[nm] <= row["t"] for nm in ("frac", "all")]
+        for nm, d_ in zip(("frac", "all"), own_due):
+            if d_:
+                dls[nm] = None
+        if k == "wait" and u != pu and not any(own_due):
+            fail("expiry", "wait: balance went %d -> %d units although no expiry deadline is due (deadlines are armed by "
+                 "coins, credit events and game ends, and removed when a game starts) %s" % (pu, u, where))
         # expirations: while nothing else happens, the balance only changes by a due expiry, which keeps the whole
         # credits (fractional expiry) or clears everything
         if k == "wait":
@@ -524,8 +733,6 @@ def oracle(case, out):
         # epoch bookkeeping of the oracle: what it does not want to assume makes the epoch unknown
         if k == "rc":
             money = 0
-        if k == "endball" and row["ingame"] and row["cpl"] == 1 and row["ball"] == 2:
-            money = None
         if row["expdue"][1]:
             money = None       # clear_all_credits may have fired (it restarts the tiers)
         prev = row
@@ -566,23 +773,38 @@ def nontrivial(case, out):
 
 def describe(case):
     c = case["cfg"]
-    return "tiers=%d max=%s exp=%s fpboot=%s" % (len(c["tiers"]), "0" if not c["max"] else "N",
-                                                 "y" if (c["frac_ms"] or c["all_ms"]) else "n", "y" if c["boot_fp"] else "n")
+    return "tiers=%d max=%s exp=%s fpboot=%s money=%s" % (
+        len(c["tiers"]), "0" if not c["max"] else "N", "y" if (c["frac_ms"] or c["all_ms"]) else "n",
+        "y" if c["boot_fp"] else "n", "cents" if c.get("scale", 8) == 100 else "eighths")
 
 
 # ------------------------------------------------------------------------------------------------
 # suite "units": _calculate_credit_units/_calculate_pricing_tiers on arbitrary (also inexact) coin/price combinations
 def gen_units(rng, tier, i):
-    coins = [rng.choice([1, 2, 3, 4, 5, 6, 8, 10, 12, 16, 20]) for _ in range(rng.choice([0, 1, 1, 2, 3]))]
-    tiers = []
-    if rng.random() < 0.9:
-        p = rng.choice([1, 2, 3, 4, 5, 6, 8, 10, 12, 16, 20, 24])
-        tiers.append([p, 1])
-        for _ in range(rng.choice([0, 0, 1, 2, 3])):
-            p = max(1, p + rng.choice([-2, 0, 1, 2, 3, 4, 5, 8, 12]))
-            tiers.append([p, rng.randint(1, 12)])
+    if rng.random() < 0.5:
+        # decimal currency: cents; the doubles for these values are inexact
+        S = 100
+        pool = [1, 2, 5, 10, 20, 25, 30, 50, 60, 70, 100, 200]
+        coins = [rng.choice(pool) for _ in range(rng.choice([0, 1, 1, 2, 3]))]
+        tiers = []
+        if rng.random() < 0.9:
+            p = rng.choice([3, 5, 7, 10, 15, 20, 30, 35, 40, 50, 60, 70, 80, 90, 100, 110, 120, 130, 150, 170, 190, 230, 290])
+            tiers.append([p, 1])
+            for _ in range(rng.choice([0, 0, 1, 2, 3])):
+                p = max(1, p + rng.choice([-20, 0, 10, 20, 30, 50, 70, 90, 100, 130]))
+                tiers.append([p, rng.randint(1, 12)])
+    else:
+        S = 8
+        coins = [rng.choice([1, 2, 3, 4, 5, 6, 8, 10, 12, 16, 20]) for _ in range(rng.choice([0, 1, 1, 2, 3]))]
+        tiers = []
+        if rng.random() < 0.9:
+            p = rng.choice([1, 2, 3, 4, 5, 6, 8, 10, 12, 16, 20, 24])
+            tiers.append([p, 1])
+            for _ in range(rng.choice([0, 0, 1, 2, 3])):
+                p = max(1, p + rng.choice([-2, 0, 1, 2, 3, 4, 5, 8, 12]))
+                tiers.append([p, rng.randint(1, 12)])
     return {"cfg": {"coins": coins, "labels": [None] * len(coins), "tiers": tiers, "max": 0, "frac_ms": 0, "all_ms": 0,
-                    "evq": [], "boot_fp": False, "bpg": 1}, "ops": []}
+                    "evq": [], "boot_fp": False, "bpg": 1, "persist_s": 0, "scale": S}, "ops": []}
 
 
 def oracle_units(case, out):
@@ -590,22 +812,25 @@ def oracle_units(case, out):
     if "crash" in out:
         return [{"sig": "crash:" + out["crash"]["type"], "what": "boot/ops raised %s" % out["crash"]["msg"]}]
     d = out["derived"]
-    cu, upg = to_int(d["cu8"]), to_int(d["upg"])
-    price = cfg["tiers"][0][0] if cfg["tiers"] else 8
+    S = scale_of(cfg)
+    cuf, upg = d["cuf"] * S, to_int(d["upg"])        # the unit in minor units (float)
+    price = first_price(cfg)
     bad = []
-    if cu is None or upg is None or cu <= 0 or upg <= 0:
-        bad.append("credit unit %r / units per game %r" % (d["cu8"], d["upg"]))
+    if upg is None or cuf <= 0 or upg <= 0:
+        bad.append("credit unit %r / units per game %r" % (d["cuf"], d["upg"]))
     else:
-        if cu * upg != price:
-            bad.append("a game costs %d units of %d ticks = %d ticks, configured price is %d ticks" % (upg, cu, cu * upg, price))
+        if abs(cuf * upg - price) > 1e-6:
+            bad.append("a game costs %d units of %r = %r minor units, configured price is %d" % (upg, cuf, cuf * upg, price))
         for v in cfg["coins"]:
-            if v % cu:
-                bad.append("coin of %d ticks is not a whole number of credit units (%d ticks): the code raises on it" % (v, cu))
+            if abs(v / cuf - round(v / cuf)) > 1e-6:
+                bad.append("coin of %d minor units is not a whole number of credit units (%r): the code raises on it" % (v, cuf))
     if not bad:
         return []
-    # exactly the recorded defect?  (the unit is min(|price - min coin|, min coin, price) instead of a common divisor)
-    ecu = py_cu(cfg["coins"], cfg["tiers"])
-    if cu == ecu and upg == (price // ecu if ecu > 0 else None):
+    # exactly the recorded defect?  (the unit is min(|price - min coin|, min coin, price) instead of a common divisor;
+    # the price is then not a whole number of units and int() cuts it)
+    ecu = py_cu(cfg["coins"], cfg["tiers"], S)
+    nondiv = ecu > 0 and (price % ecu != 0 or any(v % ecu for v in cfg["coins"]))
+    if nondiv and abs(cuf - ecu) < 1e-6 and upg == price // ecu:
         return [{"sig": "credit-unit-not-divisor", "what": "; ".join(bad)}]
     return [{"sig": "unit-calc-other", "what": "; ".join(bad)}]
 
@@ -613,10 +838,7 @@ def oracle_units(case, out):
 def coq_case_units(case, out):
     if "crash" in out:
         return None
-    d = out["derived"]
-    first = [to_int(d["cu8"]), to_int(d["upg"]), to_int(d["W"])] + [to_int(x) for x in d["table"]]
-    first = [x if x is not None else -999999 for x in first]
-    return "((%s, (@nil op)), %s)" % (coq_cfg(case["cfg"]), coqlist([zlist(first)]))
+    return "((%s, (@nil op)), %s)" % (coq_cfg(case["cfg"]), coqlist([zlist(first_row(out["derived"]))]))
 
 
 def shrink_units(case):
@@ -630,23 +852,45 @@ def shrink_units(case):
 
 HDR = "From C20 Require Import Model.\n"
 
+def nontrivial_reboot(case, out):
+    rows = out.get("rows", [])
+    prev = out.get("boot")
+    for o, row in zip(case["ops"], rows):
+        if o[0] == "reboot" and prev and (prev["units"] or prev["fp"] != bool(case["cfg"]["boot_fp"])):
+            return True
+        prev = row
+    return False
+
+
 SUITES = [
     Suite("credits", gen, run_impl, HDR, coq_case, oracle, shrink, nontrivial,
-          {"quick": 480, "thorough": 12000}, describe=describe, shard=60, case_timeout=120),
+          {"quick": 400, "thorough": 12000}, describe=describe, shard=60, case_timeout=120),
+    Suite("reboot", gen_reboot, run_impl, HDR, coq_case, oracle, shrink, nontrivial_reboot,
+          {"quick": 90, "thorough": 3000}, describe=describe, shard=45, case_timeout=120),
     Suite("units", gen_units, run_impl, HDR, coq_case_units, oracle_units, shrink_units,
           lambda c, o: len(c["cfg"]["tiers"]) > 1 or len(c["cfg"]["coins"]) > 1,
-          {"quick": 120, "thorough": 3000}, describe=lambda c: "coins=%d tiers=%d" % (len(c["cfg"]["coins"]), len(c["cfg"]["tiers"])),
+          {"quick": 160, "thorough": 4000},
+          describe=lambda c: "coins=%d tiers=%d scale=%d" % (len(c["cfg"]["coins"]), len(c["cfg"]["tiers"]), c["cfg"].get("scale", 8)),
           shard=200, case_timeout=60),
 ]
 
-LEVEL_TEXT = ("Machine-checked proof (Coq) over an integer model of the credits mode that, for every configuration with "
-              "positive units-per-game and a monotone pricing table and for every history of operations, the balance "
-              "stays within 0..max_credits*units_per_game, the pricing table equals the closed form of the greedy tier "
-              "bonus (and n units inserted yield n + G(n)), a start/add-player deducts exactly one game price and only "
-              "when affordable, and the coin audits equal the coins accepted; the model is tied to the working tree by "
-              "running the real credits mode and the model on the same generated histories on every run.")
-LEVEL_NOTE = ("Trusted: Coq kernel + vm_compute; no axioms. Model hand-written (fixed code: three fix patches); money on a 1/8 "
-              "grid so floats are exact; game/attract interaction reduced to start, add player, rotation and end; the "
-              "correspondence compares 19 observations after every operation plus the derived pricing table.")
-TECHNIQUE = "Coq proof over hand-written executable model + differential correspondence (vm_compute) + direct property oracle"
+LEVEL_TEXT = ("Machine-checked proof (Coq) over a model of the credits mode that, for every configuration with positive "
+              "units-per-game and a monotone pricing table and for EVERY history of operations (coins, service credits, credit "
+              "events, starts and bursts, ball/game ends, expiry timers, free-play toggles and re-entries, resets, power cycles): "
+              "the balance stays within 0..max_credits*units_per_game; the balance equals units bought (n + G(m+n) - G(m) per coin, "
+              "G = closed form of the greedy tier bonus, m = money of the current tier epoch) minus one game price per player "
+              "started minus what the maximum / an expiry / a reset / a power cycle removed (balance_formula, with the exact "
+              "epoch-restart rule and the loss-free corollary); a start/add-player deducts exactly one game price and only when "
+              "affordable; the coin audits equal the coins accepted; a power cycle keeps the balance iff it is on disk and not "
+              "expired, and keeps the free_play setting and the earnings.  The unit/price/tier computation is modelled with "
+              "binary64 arithmetic; of the unfixed code 'units per game = price/unit' is refuted (0.30/0.10 -> 2), of the fixed "
+              "code it is proved bounded-exhaustively for the coin values of real decimal currencies.  The model is tied to the "
+              "working tree by running the real credits mode and the model on the same generated histories on every run.")
+LEVEL_NOTE = ("Trusted: Coq kernel + vm_compute; no axioms. Model hand-written (fixed code: four fix patches, one of them new). "
+              "Float part: binary64 on exact rationals; the agreement of fixed float and ideal arithmetic is proved only on a finite "
+              "family (general statement needs an error analysis). Game/attract interaction reduced to start, add player, rotation "
+              "and end; held player_adding queues only as operation StartHeld (start_held_partial / start_held_expiry_refuted). "
+              "The correspondence compares 21 observations after every operation plus the derived unit and pricing table.")
+TECHNIQUE = ("Coq proof over hand-written executable model (ghost-account refinement for the balance formula, binary64-on-rationals "
+             "for money) + differential correspondence (vm_compute) + direct property oracle")
 DESIGN_REF = "DESIGN.md section 3, C20"
